@@ -104,6 +104,7 @@ fn extra_lines() -> Vec<Vec<u8>> {
         "SHA-1 (f.tgz) = x", "SHA1x (f.tgz) = x", "SHA3 (f.tgz) = x", "XSHA1 (f.tgz) = x", "SIZE (f.tgz) = 7 bytes", "Sizes (f.tgz) = 7 bytes",
         "SHA1 (d//f.tgz) = c3", "Size (d/./f.tgz) = 9 bytes", "SHA1 (f.tgz/) = c4", "SHA1 (./f.tgz) = c5",
         "SHA1 () = e0",
+        "Size (f.tgz) = 000000000000000000007 bytes", "Size (d/f.tgz) = 0000000000000000000000000000000000000042 bytes", "Size (f.tgz) = 00018446744073709551615 bytes", "Size (f.tgz) = 18446744073709551615 bytes",
     ] {
         v.push(l.as_bytes().to_vec());
     }
